@@ -413,6 +413,68 @@ def _is_member_test(run, lam_body, var, cls, const_name):
             and lam_body.comparators[0].attr == const_name)
 
 
+def _set_pred(e, pin):
+    """The character-class tests written on sets of byte values: -> ("CHARSET" | "ALPHA", value of e when the class test holds) or None.
+       set(pin) <= S(POSSIBLE) / set(pin).issubset(S | map(ord, POSSIBLE)) / S.issuperset(pin)      every byte is a possible character
+       S(ALPHA).isdisjoint(pin) / set(pin).isdisjoint(S | map(ord, ALPHA))                            no byte is a letter (ALPHA is its negation)
+    with S(X) = set / frozenset of map(ord, cls.X), {ord(c) for c in cls.X} or cls.X.encode(); locals bound once stand for their value."""
+    defs = _ITER_DEFS.get("cur", {})
+
+    def rs(x, depth=0):
+        while isinstance(x, ast.Name) and x.id in defs and depth < 4:
+            x, depth = defs[x.id], depth + 1
+        return x
+
+    def wrapped(x):
+        x = rs(x)
+        if isinstance(x, ast.Call) and isinstance(x.func, ast.Name) and x.func.id in ("set", "frozenset") and len(x.args) == 1 and not x.keywords:
+            return rs(x.args[0])
+        return None
+
+    def pinset(x, need_wrap):
+        w = wrapped(x)
+        if w is not None:
+            return isinstance(w, ast.Name) and w.id == pin
+        x = rs(x)
+        return (not need_wrap) and isinstance(x, ast.Name) and x.id == pin
+
+    def codes(x):
+        """x = the byte values of cls.<NAME> as an iterable -> NAME"""
+        x = rs(x)
+        if isinstance(x, ast.Call) and call_name(x) == "map" and len(x.args) == 2 and norm(x.args[0]) == "ord" and isinstance(x.args[1], ast.Attribute):
+            return x.args[1].attr
+        if isinstance(x, ast.Call) and call_name(x) == "encode" and isinstance(x.func, ast.Attribute) and isinstance(x.func.value, ast.Attribute) and not x.args:
+            return x.func.value.attr
+        if isinstance(x, (ast.SetComp, ast.GeneratorExp, ast.ListComp)) and len(x.generators) == 1 and not x.generators[0].ifs \
+                and isinstance(x.generators[0].target, ast.Name) and isinstance(x.generators[0].iter, ast.Attribute) \
+                and norm(x.elt) == f"ord({x.generators[0].target.id})":
+            return x.generators[0].iter.attr
+        return None
+
+    def charset(x, need_wrap):
+        w = wrapped(x)
+        if w is not None:
+            return codes(w)
+        x = rs(x)
+        if isinstance(x, ast.SetComp):
+            return codes(x)
+        return None if need_wrap else codes(x)
+    e = rs(e)
+    if isinstance(e, ast.Compare) and len(e.ops) == 1 and isinstance(e.ops[0], (ast.LtE, ast.GtE)):
+        a, b = (e.left, e.comparators[0]) if isinstance(e.ops[0], ast.LtE) else (e.comparators[0], e.left)
+        if pinset(a, True) and charset(b, True) == "POSSIBLE_CHARS":
+            return ("CHARSET", True)
+    if isinstance(e, ast.Call) and isinstance(e.func, ast.Attribute) and len(e.args) == 1 and not e.keywords:
+        recv, arg, m = e.func.value, e.args[0], e.func.attr
+        if m == "issubset" and pinset(recv, True) and charset(arg, False) == "POSSIBLE_CHARS":
+            return ("CHARSET", True)
+        if m == "issuperset" and charset(recv, True) == "POSSIBLE_CHARS" and pinset(arg, False):
+            return ("CHARSET", True)
+        if m == "isdisjoint" and ((pinset(recv, True) and charset(arg, False) == "ALPHA_CHARS") or (charset(recv, True) == "ALPHA_CHARS" and pinset(arg, False))):
+            return ("ALPHA", False)
+    return None
+
+
 _ITER_DEFS = {}     # id(fn node) -> {local name: the comprehension / map it is bound to (once)}
 
 
@@ -750,6 +812,9 @@ def _policy(run, F, BASE, rid="R4"):
             return ("ANY", True)
         if isinstance(e, ast.Call) and call_name(e) == "isinstance" and len(e.args) == 2 and norm(e.args[0]) == pin and norm(e.args[1]) == "bytes":
             return ("TYPE", True)
+        sp_ = _set_pred(e, pin)
+        if sp_ is not None:
+            return sp_
         for pol_ in (True,):
             q = _quantified(e, pol_)
             if q and norm(q[3]) == pin:
@@ -822,6 +887,17 @@ def _atoms(run, facts, pin, BASE, weak):
             ok, v = try_fold(P, f.right, f.fn, BASE)
             if ok and v == 8:
                 out.add("length")
+        # the same class tests on sets of byte values
+        sp_ = None
+        if f.kind == "call":
+            sp_ = _set_pred(f.expr, pin)
+            sp_ = (sp_[0], sp_[1] == f.pol) if sp_ is not None else None
+        elif f.kind == "cmp" and f.op in ("<=", ">="):
+            sp_ = _set_pred(ast.Compare(left=f.left, ops=[ast.LtE() if f.op == "<=" else ast.GtE()], comparators=[f.right]), pin)
+        if sp_ == ("CHARSET", True):
+            out.add("charset")
+        if sp_ == ("ALPHA", True):
+            out.add("alpha")
         if f.kind == "call":
             q = _quantified(f.expr, f.pol)
             if q and q[0] == "all" and norm(q[3]) == pin:
